@@ -222,7 +222,7 @@ set_option maxRecDepth 100000 in
 /-- finding tmp_left_behind: `write a.PID.renamify.tmp` (call 6) fails; the empty temp file stays in the user's tree -/
 theorem C04_witness_tmp_left : ExecFlags.tempRemovedOnFailure = false →
     outcome (run (bodyApply plA) tA (.fail 6 .EIO)) = .fail ∧
-    fileAt (run (bodyApply plA) tA (.fail 6 .EIO)) [b!"a.PID.renamify.tmp"] = some (.file [] 0o644) := by decide +kernel
+    fileAt (run (bodyApply plA) tA (.fail 6 .EIO)) (tmpPath [b!"a.txt"]) = some (.file [] 0o644) := by decide +kernel
 
 set_option maxRecDepth 100000 in
 /-- finding late_failure_no_rollback: `openw history.json` (call 29) fails; failure is reported with the whole plan
